@@ -304,6 +304,62 @@ func eofToUnexpected(err error) error {
 // Buffered returns the number of bytes buffered and not yet consumed.
 func (r *Reader) Buffered() int { return r.br.Buffered() }
 
+// CompleteBuffered reports whether the bytes already buffered contain at least one complete value, i.e. whether the next Read
+// returns without waiting for the peer. (A server must not hold replies back while it waits for the rest of a request: the peer
+// may be waiting for those replies before it sends the rest.) Malformed input counts as complete: Read will fail on it at once.
+func (r *Reader) CompleteBuffered() bool {
+	n := r.br.Buffered()
+	if n == 0 {
+		return false
+	}
+	b, err := r.br.Peek(n)
+	if err != nil {
+		return false
+	}
+	_, ok := scanValue(b, 0)
+	return ok
+}
+
+// scanValue returns the length of the complete value at the start of b (ok=false: more bytes are needed). No allocation.
+func scanValue(b []byte, depth int) (int, bool) {
+	if len(b) == 0 {
+		return 0, false
+	}
+	eol := bytes.IndexByte(b, '\n')
+	if eol < 0 {
+		return 0, false
+	}
+	switch b[0] {
+	case Simple, Error, Integer:
+		return eol + 1, true
+	case Bulk:
+		n, err := strconv.ParseInt(string(bytes.TrimSuffix(b[1:eol], []byte{'\r'})), 10, 64)
+		if err != nil || n < 0 {
+			return eol + 1, true // null or malformed: Read decides at once
+		}
+		if int64(len(b)) < int64(eol)+1+n+2 {
+			return 0, false
+		}
+		return eol + 1 + int(n) + 2, true
+	case Array:
+		n, err := strconv.ParseInt(string(bytes.TrimSuffix(b[1:eol], []byte{'\r'})), 10, 64)
+		if err != nil || n <= 0 || depth > 64 {
+			return eol + 1, true
+		}
+		off := eol + 1
+		for i := int64(0); i < n; i++ {
+			l, ok := scanValue(b[off:], depth+1)
+			if !ok {
+				return 0, false
+			}
+			off += l
+		}
+		return off, true
+	default: // inline command: one line
+		return eol + 1, true
+	}
+}
+
 // Args extracts the argument vector of a command value.
 func Args(v Value) ([][]byte, bool) {
 	if v.Kind != Array || v.Null || len(v.Arr) == 0 {
